@@ -30,6 +30,7 @@ import extract  # noqa: E402
 MEM_LIMIT = int(os.environ.get('VERIF_MEM_GB', '10')) * (1 << 30)
 DEFAULT_FLAGS = ['--bounds-check', '--pointer-check', '--div-by-zero-check', '--signed-overflow-check']
 PROVED_LABELS = ('proved-modular', 'proved-complete-unwinding')
+PREPARE_ONLY = False
 
 
 class Undecided(Exception):
@@ -180,7 +181,7 @@ def prepare_unit(unit, scratch, mutate=None):
         text = src_text(sl['file'])
         try:
             if sl.get('kind') == 'lines':
-                body, l0, l1 = extract.slice_lines(text, sl['start'], sl['last'], 'in ' + sl['file'])
+                body, l0, l1 = extract.slice_lines(text, sl['start'], sl.get('last'), 'in ' + sl['file'])
             else:
                 body, l0, l1 = extract.slice_definition(text, sl['start'], sl.get('occurrence', 0), 'in ' + sl['file'])
             if mutate and mutate.get('slice') == sl['id']:
@@ -345,6 +346,8 @@ def run_harness(unit, h, scratch):
         rc, so, dt, to = run(['goto-cc', '--function', entry] + objs + ['-o', lgb], hd, 300)
         if rc != 0 or to:
             raise Undecided('link failed: ' + so[-2000:])
+        if PREPARE_ONLY:
+            raise Undecided('prepared only: ' + lgb)
         cur = lgb
         if h.get('enforce') or h.get('loops') or h.get('dfcc', False):
             igb = os.path.join(hd, 'i.gb')
@@ -486,9 +489,53 @@ def write_replay(prop, res, replays_dir):
            'verifier_output': ['[%s] %s: %s' % (o['name'], o['desc'], o['status']) for o in res['obligations']
                                if o['class'] != 'dfcc_library'],
            'native_replay': None}
+    scal, arrs = simplify_inputs(doc['counterexample'])
+    doc['inputs'] = {'scalars': scal, 'arrays': arrs}
     with open(path, 'w') as f:
         json.dump(doc, f, indent=1)
+    with open(path + '.inputs', 'w') as f:
+        f.write('H %s\n' % res['harness'])
+        for o in failed:
+            f.write('O %s\n' % o['name'])
+        for k, v in scal.items():
+            f.write('S %s %d\n' % (k, v))
+        for k, v in arrs.items():
+            f.write('A %s %d %s\n' % (k, len(v), ' '.join(str(x) for x in v)))
     return path, doc
+
+
+def parse_int(data):
+    if data is None or isinstance(data, (dict, list)):
+        return None
+    d = str(data)
+    mc = re.search(r'/\*\s*(-?\d+)(?:u|l|ul|ll|ull)?\s*\*/', d, re.I)
+    d = d.split('/*')[0].strip()
+    if d.upper() == 'TRUE':
+        return 1
+    if d.upper() == 'FALSE':
+        return 0
+    m = re.fullmatch(r'(?:\([^)]*\))?\s*(-?\d+)(?:u|l|ul|ll|ull)?', d, re.I)
+    if m:
+        return int(m.group(1))
+    if mc:
+        return int(mc.group(1))
+    return None
+
+
+def simplify_inputs(ce):
+    scal, arrs = {}, {}
+    for k, v in ce.items():
+        m = re.fullmatch(r'([\w$]+)\[(\d+)l?\]', k)
+        iv = parse_int(v)
+        if m and iv is not None:
+            arrs.setdefault(m.group(1), {})[int(m.group(2))] = iv
+        elif iv is not None and re.fullmatch(r'[\w$.]+', k):
+            scal[k.replace('.', '_')] = iv
+    out = {}
+    for name, d in arrs.items():
+        n = max(d) + 1
+        out[name] = [d.get(i, 0) for i in range(n)]
+    return scal, out
 
 
 def native_replay(unit, res, path, doc, scratch):
@@ -501,22 +548,70 @@ def native_replay(unit, res, path, doc, scratch):
     exe = os.path.join(rd, 'replay')
     if not os.path.exists(exe):
         srcs = [os.path.join(REPO, s) for s in rp.get('sources', [])]
-        incs = ['-I', os.path.join(REPO, 'include'), '-I', os.path.join(REPO, '_build', 'include'), '-I', rd]
-        gen_ct_params(rd)
-        cmd = ['g++', '-std=c++14', '-O1', '-g', '-fsanitize=address,undefined', '-fno-sanitize-recover=undefined',
-               '-DVBK_VERIF_CONTRACTS=1'] + incs + \
-              [os.path.join(unit['dir'], rp['file'])] + srcs + ['-o', exe] + rp.get('libs', [])
+        incs = ['-I', os.path.join(REPO, 'include'), '-I', os.path.join(REPO, 'src', 'pop'), '-I', os.path.join(REPO, 'test'), '-I', rd,
+                '-I', os.path.join(VERIF, 'tools')]
+        libs = []
+        if rp.get('lib', True):
+            lib, err = build_native_lib(scratch)
+            if lib is None:
+                doc['native_replay'] = {'built': False, 'output': err}
+                json.dump(doc, open(path, 'w'), indent=1)
+                return None
+            libs = [lib, '-lpthread']
+        cmd = ['g++', '-std=c++14', '-O1', '-g', '-fsanitize=address,undefined', '-fno-omit-frame-pointer', '-DFMT_HEADER_ONLY=1', '-DNDEBUG',
+               '-DVBK_VERIF_CONTRACTS=1', '-w'] + incs + \
+              [os.path.join(unit['dir'], rp['file'])] + srcs + ['-o', exe] + libs + rp.get('libs', [])
         rc, so, dt, to = run_nolimit(cmd, rd, 900)
         if rc != 0:
             doc['native_replay'] = {'built': False, 'output': so[-3000:]}
             json.dump(doc, open(path, 'w'), indent=1)
             return None
-    rc, so, dt, to = run_nolimit([exe, path, res['harness']], rd, 120)
+    rc, so, dt, to = run_nolimit([exe, path + '.inputs', res['harness']], rd, 120)
     out = {'built': True, 'exit': rc, 'output': so[-4000:], 'reproduced': ('REPRODUCED' in so and 'NOT-REPRODUCED' not in so)
            or ('ERROR: AddressSanitizer' in so) or ('runtime error' in so)}
     doc['native_replay'] = out
     json.dump(doc, open(path, 'w'), indent=1)
     return out['reproduced']
+
+
+_native_lock = threading.Lock()
+
+
+def build_native_lib(scratch):
+    """sanitizer build of the library from /repo's working tree (only when a counterexample has to be replayed)"""
+    with _native_lock:
+        nd = os.path.join(scratch, 'native')
+        lib = os.path.join(nd, 'libnative.a')
+        if os.path.exists(lib):
+            return lib, ''
+        os.makedirs(nd, exist_ok=True)
+        srcs = []
+        for root, _, files in os.walk(os.path.join(REPO, 'src', 'pop')):
+            rel = os.path.relpath(root, os.path.join(REPO, 'src', 'pop'))
+            if rel == 'c' or rel.startswith('c/') or rel.startswith('storage/adaptors'):
+                continue
+            for fn in files:
+                if fn.endswith('.cpp') and fn != 'Tracy.cpp':
+                    srcs.append(os.path.join(root, fn))
+        flags = ['-std=c++14', '-O1', '-g', '-fsanitize=address,undefined', '-fno-omit-frame-pointer', '-DFMT_HEADER_ONLY=1',
+                 '-DVBK_HAS_BUILTIN_CLZ', '-DVBK_HAS_BUILTIN_EXPECT', '-DVBK_HAS_BUILTIN_POPCOUNT', '-DVBK_HAS_RESTRICT', '-DNDEBUG',
+                 '-I', os.path.join(REPO, 'include'), '-I', os.path.join(REPO, 'src', 'pop'), '-w']
+        objs, errs = [], []
+
+        def cc(src):
+            o = os.path.join(nd, os.path.relpath(src, REPO).replace('/', '_') + '.o')
+            rc, so, dt, to = run_nolimit(['g++'] + flags + ['-c', src, '-o', o], nd, 900)
+            return o, rc, so
+        with cf.ThreadPoolExecutor(max_workers=16) as ex:
+            for o, rc, so in ex.map(cc, srcs):
+                if rc != 0:
+                    errs.append(so[-1500:])
+                else:
+                    objs.append(o)
+        if errs:
+            return None, 'native build failed: ' + errs[0]
+        rc, so, dt, to = run_nolimit(['ar', 'rcs', lib] + objs, nd, 300)
+        return (lib, '') if rc == 0 else (None, so)
 
 
 def gen_ct_params(rd):
@@ -573,12 +668,18 @@ def main():
     ap.add_argument('--canaries', action='store_true', help='run the canary mutants of the selected units (self-test)')
     ap.add_argument('--no-evidence', action='store_true')
     ap.add_argument('--replay')
+    ap.add_argument('--prepare-only', action='store_true', help='slice+compile+link only (for manual experiments); implies --keep')
     args = ap.parse_args()
     t0 = time.time()
     seed = int(os.environ.get('VERIF_SEED', '0') or 0)
 
     if args.replay:
         return replay_only(args)
+    if args.prepare_only:
+        global PREPARE_ONLY
+        PREPARE_ONLY = True
+        args.keep = True
+        args.no_evidence = True
 
     units = load_units()
     props = sorted({p for u in units.values() for h in u['harnesses'] for p in h.get('props', u.get('properties', []))})
